@@ -5,7 +5,7 @@ ID = 'C19'
 LEVEL = 'proof'
 FUNCTIONS = [N + f for f in ('is_special_string', 'is_content_string', 'is_navigable_string', 'is_cdata', 'is_declaration', 'is_processing_instruction', 'get_contents')] + HUB
 BOUNDED = [hub_bounded('C19-text-hub', ['text', 'iframe', 'basic', 'multiroot', 'small', 'plain'], ['text'])]
-TRUSTED = [A_PY, A_BS4, A_SMT, 'get_descendants (the iframe-skipping pre-order walk) is under an assumed contract (desc_spec): bounded', 'parse_pseudo_contains (value-list decoding) is bounded']
+TRUSTED = [A_PY, A_BS4, A_SMT, A_PRE, 'parse_pseudo_contains (value-list decoding) is bounded']
 ASSUMPTIONS = TRUSTED
 EXPLANATION = ('Proved: node-kind classification (content string = NavigableString that is not comment/CDATA/PI/declaration/doctype), get_contents with the iframe cut, the hub. '
                'match_contains is proved: every list needs some text inside the joined descendant text / inside ONE own text node, the two kinds computed separately and reused; match_empty is proved. '
@@ -26,6 +26,6 @@ FUNCTIONS = FUNCTIONS + [q for q in STRUCT if q not in FUNCTIONS]
 
 FUNCTIONS = FUNCTIONS + [M + 'match_contains']
 
-FUNCTIONS = FUNCTIONS + [q for q in KIDS if q not in FUNCTIONS]
+FUNCTIONS = FUNCTIONS + [q for q in dict.fromkeys(KIDS + DESC) if q not in FUNCTIONS]
 
 VALIDATION = [validate_bs4]
